@@ -296,6 +296,9 @@ def run(ctx):
     vs = {tuple(sorted(v["verdicts"])) for v in sers}
     if vs != {("accept",), ("reject",), ("accept", "reject")} or len(sers) < 1000:
         raise vlib.Inconclusive("vacuous: serialisation verdict classes %s" % sorted(vs))
+    n_frac = sum(1 for v in sers if v["sn"] or v["en"])
+    if n_frac < 1000 or any(v["verdicts"] != ["reject"] for v in sers if v["sn"] or v["en"]):
+        raise vlib.Inconclusive("vacuous/unsound: %d serialisation vectors with a sub-millisecond part" % n_frac)
 
     # ---- 2. host zones -> cases -> TLC
     zones = scan_zones(ctx)
@@ -407,7 +410,9 @@ def run(ctx):
         "cases_by_class": {"%s/%s" % k: n for k, n in sorted(zc.items())},
         "tables": len(evecs), "table_rows": n_rows, "rows_expected_true": summ["true"],
         "rows_of_tables_refused_by_decoders": summ["unbuilt_rows"],
-        "serialisation_vectors": len(sers),
+        "serialisation_vectors": len(sers), "serialisation_vectors_sub_ms": n_frac,
+        "representations_per_row": 5, "contains_calls": 5 * summ["evals"],
+        "trace_ser_lines_with_sub_ms": sum(1 for r in trows if r["k"] == "ser" and any(x[0] or x[1] for x in r["wn"])),
         "filtering_path_evaluations": asumm["evals"], "filtering_path_blocked": asumm["blocked"],
         "trace_lines": len(trows), "trace_lines_rejected": len(tbad),
         "rows_matching_known_finding": known_rows + known_apply + tknown,
@@ -419,6 +424,8 @@ def run(ctx):
         "samples": samples, "notes": ctx.notes,
     }
     return ctx.finish("model_checking", cov, assumptions=[
+        "JSON durations are binary floats of milliseconds: fractions that are not multiples of 1/64 ms are exercised "
+        "through the YAML form only",
         "TLC; the host tz database as read by Go's time package (offset tables extracted with Time.ZoneBounds and "
         "cross-checked per instant against Time.In(loc).Zone/Clock/Weekday)",
         "instants between 2000-01-05 and 2037-12-20 (synctest's clock starts in 2000, TLC integers end in 2038)",
@@ -431,8 +438,9 @@ def run(ctx):
 def describe(r):
     if r.get("what", "").startswith("ser:") or r.get("what") == "build":
         return "%s: %s" % (r.get("what"), str(r.get("detail") or r.get("err"))[:200])
-    return "%s %s local %s range %s: spec %s, code %s" % (
-        r.get("what"), r.get("zone"), r.get("local"), r.get("range"), r.get("want"), r.get("got"))
+    return "%s %s local %s (instant given as %s) range %s: spec %s, code %s" % (
+        r.get("what"), r.get("zone"), r.get("local"), r.get("given_as") or r.get("pres"), r.get("range"),
+        r.get("want"), r.get("got"))
 
 
 def trace_record(row, i):
@@ -444,18 +452,21 @@ def trace_record(row, i):
         rec = {"what": "contains", "c": cid, "zone": row["zone"], "shape": "trace", "w": row["w"],
                "pt": pt, "range": row["w"][row["wd"]], "want": bool(want), "got": bool(row["got"]),
                "local": "wd %d tod %d off %d" % (row["wd"], row["tod"], row["off"]), "trace_line": i}
-        vec = {"k": "eval", "c": cid, "zone": row["zone"], "shape": "trace", "w": row["w"], "pts": [pt]}
+        rec["pres"] = row["pres"]
+        vec = {"k": "eval", "c": cid, "zone": row["zone"], "shape": "trace", "w": row["w"], "pts": [pt],
+               "pres": row["pres"]}
         return rec, vec
     if row["k"] == "build":
         rec = {"what": "build", "c": cid, "zone": row["zone"], "shape": "trace", "w": row["w"],
                "detail": "%s %s" % (row.get("via"), row.get("detail")), "trace_line": i}
         vec = {"k": "eval", "c": cid, "zone": row["zone"], "shape": "trace", "w": row["w"], "pts": []}
         return rec, vec
-    rec = {"what": "ser:trace", "c": cid, "zone": row["zone"], "wms": row["w"], "ser": row["ser"],
-           "detail": "json accepted=%s yaml accepted=%s round trips ok=%s %s %s (ranges in ms: %s)" % (
-               row["ser"][0], row["ser"][1], row["ser"][2], row.get("via"), row.get("detail"), row["w"]),
+    rec = {"what": "ser:trace", "c": cid, "zone": row["zone"], "wms": row["w"], "wns": row["wn"], "ser": row["ser"],
+           "detail": "json accepted=%s yaml accepted=%s round trips ok=%s %s %s (ranges in ns: %s)" % (
+               row["ser"][0], row["ser"][1], row["ser"][2], row.get("via"), row.get("detail"),
+               [[a[0] * 10 ** 6 + b[0], a[1] * 10 ** 6 + b[1]] for a, b in zip(row["w"], row["wn"])]),
            "trace_line": i}
-    vec = {"k": "week", "c": cid, "zone": row["zone"], "wms": row["w"]}
+    vec = {"k": "week", "c": cid, "zone": row["zone"], "wms": row["w"], "wns": row["wn"]}
     return rec, vec
 
 
@@ -464,6 +475,8 @@ def replay(ctx, path):
     if "pt" in rec:
         vec = {"k": "eval", "c": rec.get("c", "replay"), "zone": rec["zone"], "shape": rec.get("shape", "replay"),
                "w": rec["w"], "pts": [rec["pt"]]}
+        if rec.get("pres") is not None and not rec.get("what", "").startswith("apply"):
+            vec["pres"] = rec["pres"]      # the representation of the instant that was recorded
         rows, summ, vin = go_replay(ctx, [vec], tag="r")
         bad = [r for r in rows if r.get("kind") == "bad"]
         obs = [b.get("got") for b in bad] or "as expected"
@@ -473,19 +486,21 @@ def replay(ctx, path):
             bad += abad
             obs = {"contains": obs, "filtering": [b.get("got") for b in abad] or "as expected"}
         print(json.dumps({"input": {"zone": rec["zone"], "range": rec.get("range"), "instant": rec.get("utc"),
-                                    "local": rec.get("local")},
+                                    "local": rec.get("local"), "given_as": rec.get("given_as")},
                           "expected_contains": bool(rec["pt"][5]), "observed": obs}, indent=1))
         return 1 if bad else 0
     if "verdicts" in rec:
-        vec = {"k": "ser", "d": rec["d"], "s": rec["s"], "e": rec["e"], "fill": rec["fill"], "verdicts": rec["verdicts"]}
+        vec = {"k": "ser", "d": rec["d"], "s": rec["s"], "sn": rec.get("sn", 0), "e": rec["e"], "en": rec.get("en", 0),
+               "fill": rec["fill"], "verdicts": rec["verdicts"]}
         rows, summ, _ = go_replay(ctx, [vec], tag="r")
         bad = [r for r in rows if r.get("kind") == "bad"]
         print(json.dumps({"expected": rec["verdicts"], "observed": [b.get("what") for b in bad] or "admissible"}, indent=1))
         return 1 if bad else 0
     if "wms" in rec:
-        rows, _, _ = go_replay(ctx, [{"k": "week", "c": "replay", "zone": rec["zone"], "wms": rec["wms"]}], tag="r")
+        rows, _, _ = go_replay(ctx, [{"k": "week", "c": "replay", "zone": rec["zone"], "wms": rec["wms"],
+                                      "wns": rec.get("wns") or [[0, 0]] * 7}], tag="r")
         obs = [r["ser"] for r in rows if r.get("kind") == "week"]
-        print(json.dumps({"ranges_ms": rec["wms"], "recorded [json accepted, yaml accepted, round trips ok]": rec["ser"],
+        print(json.dumps({"ranges_ms": rec["wms"], "ranges_sub_ms_ns": rec.get("wns"), "recorded [json accepted, yaml accepted, round trips ok]": rec["ser"],
                           "observed": obs}, indent=1))
         return 1 if obs and obs[0] == rec["ser"] else 0
     if rec.get("what") == "build":
